@@ -6,6 +6,7 @@ import (
 	"encoding/json"
 	"fmt"
 	"os"
+	"runtime/pprof"
 	"time"
 
 	"wa-lang.org/wa/internal/zzverif/mc"
@@ -94,4 +95,38 @@ func sigsOf(m *wg.Module) map[string]wg.FuncType {
 		}
 	}
 	return out
+}
+
+// bench: C06_BENCH=<family> evaluates the first cases of a family in-process and prints CPU per phase.
+func bench(fam string) {
+	benchOut = os.Stdout
+	os.Setenv("C06_FAMS", fam)
+	bl := tierBlocks(false)
+	var specs []Spec
+	for _, b := range bl {
+		specs = append(specs, expand(b, false)...)
+	}
+	step := len(specs) / 1000
+	if step < 1 {
+		step = 1
+	}
+	var sel []Spec
+	for i := 0; i < len(specs); i += step {
+		sel = append(sel, specs[i])
+	}
+	wz, _ := newWz()
+	v, err := v8x.Start(mc.VerifDir())
+	if err != nil {
+		fmt.Println(err)
+		return
+	}
+	defer v.Close()
+	if os.Getenv("C06_PPROF") != "" {
+		f, _ := os.Create(os.Getenv("C06_PPROF"))
+		pprof.StartCPUProfile(f)
+		defer pprof.StopCPUProfile()
+	}
+	t0 := time.Now()
+	res := evalShard(sel, 0, wz, v)
+	fmt.Printf("%s: %d cases wall %v cpu %dms cands=%d harness=%q\n", fam, len(sel), time.Since(t0), res.Stats.CPUms, len(res.Cands), res.Harness)
 }
